@@ -105,6 +105,7 @@ type Exec struct {
 	timeAction  bool
 	quantum     time.Duration
 	timeDead    bool
+	idleDead    bool
 	// IdleWaits counts the times the scheduler had nothing to choose and let virtual time run.
 	IdleWaits int
 }
@@ -415,8 +416,20 @@ func (x *Exec) choices(sc *Scenario) ([]Choice, []int) {
 		timeIdx = len(cs)
 		cs = append(cs, *timeChoice)
 	}
+	idleIdx := -1
 	if sc.Actions != nil {
 		acts := sc.Actions(x)
+		if len(acts) > 0 && len(cs) == 0 && live > 0 {
+			// nothing but scenario actions is enabled: the default is to let virtual time run (free);
+			// a scenario action is always a deviation
+			idleIdx = 0
+			cs = append(cs, Choice{Key: "@idle", action: &Action{Name: "idle", Do: func(x *Exec) {
+				x.IdleWaits++
+				if !x.letTimePass() {
+					x.idleDead = true
+				}
+			}}})
+		}
 		for i := range acts {
 			cs = append(cs, Choice{Key: "@" + acts[i].Name, Proc: acts[i].Proc, action: &acts[i]})
 		}
@@ -458,6 +471,8 @@ func (x *Exec) choices(sc *Scenario) ([]Choice, []int) {
 				if nonYield == 0 && waiting > 0 {
 					cost = 0
 				}
+			case i == idleIdx:
+				cost = 0
 			case c.action != nil:
 				cost = 1
 			case c.p.ev.Yield:
@@ -547,6 +562,10 @@ func runOne(t *testing.T, sc *Scenario, opt *Options, prefix []string) *Exec {
 			cs, costs := x.choices(sc)
 			if live == 0 {
 				// only helper goroutines are parked; nothing left to decide
+				break
+			}
+			if x.idleDead {
+				x.Deadlock = true
 				break
 			}
 			if len(cs) == 0 {
